@@ -518,6 +518,7 @@ func ruleTL(c *Ctx) {
 	}
 	sort.Strings(vnames)
 	c.Note("validated length consumers (their success edge bounds the argument): %v", vnames)
+	upSeen := map[string]bool{}
 	for _, s := range sinks {
 		pos := P.pos(s.Instr.Pos())
 		roots := e.roots(s.Expr)
@@ -542,7 +543,20 @@ func ruleTL(c *Ctx) {
 		switch s.Kind {
 		case "alloc":
 			c.Rule("TL-UP", "", 0)
-			c.Check(bounded, s.Key, pos, "bounded by the input present", "the size of this allocation is a length declared by the input with no bound tied to the bytes actually present: a few bytes of input can demand gigabytes")
+			// the finding is "this declared length sizes an allocation": it is named after the function that decodes
+			// the length (where the taint starts), so that moving the allocation into a helper does not make it a
+			// different one; when the length has several origins the allocation site names it
+			upKey := s.Key
+			if org := e.originFns(s.Expr, 0); len(org) == 1 {
+				upKey = org[0] + "/declared-length->alloc"
+			}
+			if upSeen[upKey] {
+				if !bounded {
+					continue // the same origin reaches a second allocation: one finding
+				}
+			}
+			upSeen[upKey] = true
+			c.Check(bounded, upKey, pos, "bounded by the input present", "the size of this allocation is a length declared by the input with no bound tied to the bytes actually present: a few bytes of input can demand gigabytes")
 		default:
 			c.Rule("TL-BOUND", "", 0)
 			c.Check(upper, s.Key, pos, "an upper comparison dominates the use", fmt.Sprintf("%s decoded from the input is used as a %s bound with no dominating upper comparison: out-of-range values panic", strings.Join(whyUp, ", "), s.Kind))
@@ -1264,4 +1278,38 @@ func nonNilAtEveryCallD(P *Program, fn *ssa.Function, path string, depth int) bo
 		}
 	}
 	return n > 0
+}
+
+// originFns: the functions in which the decoded values reaching v are decoded
+// (the callers' argument roots are followed through parameters).
+func (e *tlEnv) originFns(v ssa.Value, depth int) []string {
+	set := map[string]bool{}
+	var rec func(v ssa.Value, d int)
+	rec = func(v ssa.Value, d int) {
+		if d > 4 {
+			return
+		}
+		for _, r := range e.roots(v) {
+			switch x := r.(type) {
+			case *ssa.Parameter:
+				if len(e.sites[x]) == 0 {
+					set[fnKey(x.Parent())] = true
+				}
+				for _, s := range e.sites[x] {
+					rec(s.Arg, d+1)
+				}
+			default:
+				if in, ok := r.(ssa.Instruction); ok && in.Parent() != nil {
+					set[fnKey(in.Parent())] = true
+				}
+			}
+		}
+	}
+	rec(v, depth)
+	var out []string
+	for k := range set {
+		out = append(out, k)
+	}
+	sort.Strings(out)
+	return out
 }
